@@ -115,7 +115,8 @@ def project(seg, result, y_c, *, lower, upper, tol, max_iter, root, extra_bound=
         below = sum(1 for p in order if p < result)
         rr = 2 * below - 1
     n_bis = None
-    scale = max(abs(root), abs(lower), abs(upper), abs(result)) if root is not None else 0.0
+    # float resolution where the search ends up, not at the ends of the bracket it started from (the bracket shrinks)
+    scale = max(abs(root), abs(result)) if root is not None else 0.0
     eps = np.finfo(np.float64 if X64 else np.float32).eps
     if root is None:
         within = True
@@ -238,8 +239,9 @@ def random_runs(rep: Report, rng: random.Random, count: int, traces: list):
     eps = np.finfo(np.float64 if X64 else np.float32).eps
     for i in range(count):
         dim = 1 if i % 3 else rng.randrange(2, 7)
-        lower, upper = rng.choice(INTERVALS + [(-10.0, 10.0), (-0.3, 0.7), (1e3, 1e3 + 1)])
+        lower, upper = rng.choice(INTERVALS + [(-10.0, 10.0), (-0.3, 0.7), (1e3, 1e3 + 1), (-1e8, 1e8), (-1e5, 3e5)])
         w = upper - lower
+        wide = w > 1e4
         kind = rng.randrange(len(G_NAMES))
         tol = rng.choice([1e-2, 1e-3, 1e-5, 1e-7, 1e-9, 1e-13, 1e-18])
         max_iter = rng.choice([0, 1, 5, 60, 200, 200, 200])
@@ -258,6 +260,8 @@ def random_runs(rep: Report, rng: random.Random, count: int, traces: list):
                 r = lower - w * rng.choice([1.0, 3.7, 1e2, 1e5, 1e6])
             elif where == 5:
                 r = upper + w * rng.choice([1.0, 2.0, 7.3, 1e3, 1e6])
+            elif wide:          # a bracket many orders of magnitude wider than the root: the accuracy promised is tol at the ROOT's scale
+                r = rng.uniform(-3.0, 3.0)
             else:
                 r = lower + w * rng.random()
             xs.append(r)
@@ -287,7 +291,7 @@ def random_runs(rep: Report, rng: random.Random, count: int, traces: list):
             t["num"]["kind"] = G_NAMES[kind]
             t["num"]["dim"] = dim
             traces.append(t)
-            sc = max(abs(xs[d]), abs(lower), abs(upper))
+            sc = max(abs(xs[d]), abs(float(out[d])))          # resolution at the root, not at the ends of the starting bracket
             bound.append(max(tol, 4 * eps * sc) + eb)
             if max_iter >= 200 and abs(float(out[d]) - xs[d]) > 2 * bound[d] + 1e-300:
                 rep.violation({**key, "coord": d, "what": "preimage not recovered"},
